@@ -29,7 +29,7 @@ def ep(m, node):
     return "-" if node is None else proto.enc_path(m[id(node)])
 
 
-def nav_case(tree, group, desc):
+def nav_case(tree, group, desc, light=False):
     m = pathmap(tree)
     paths = proto.all_paths(tree)
     nodes = [proto.node_at(tree, p) for p in paths]
@@ -55,9 +55,10 @@ def nav_case(tree, group, desc):
         dom = ";".join(" ".join(ep(m, a) for a in trees.dominance(n)) for n in nodes)
         lines.append(Line("corr", "dominance", [t], dom))
         lines.append(Line("pred", "P.C19.dominance", [t, dom]))
-        lca = ";".join(ep(m, trees.lca(a, b)) for a in nodes for b in nodes)
-        lines.append(Line("corr", "lca_all", [t], lca))
-        lines.append(Line("pred", "P.C19.lca", [t, lca]))
+        if not light:          # quadratic in the number of nodes
+            lca = ";".join(ep(m, trees.lca(a, b)) for a in nodes for b in nodes)
+            lines.append(Line("corr", "lca_all", [t], lca))
+            lines.append(Line("pred", "P.C19.lca", [t, lca]))
         lev, rev = trees.levels(tree)
         levs = ";".join("%s=%d" % (ep(m, n), rev[n]) for n in trees.preorder(tree) if n in rev)
         lines.append(Line("corr", "levels", [t], levs))
@@ -73,7 +74,28 @@ def nav_case(tree, group, desc):
     return Case(group, desc, lines, nontrivial=ncons > 0)
 
 
+def huge_tree(rng):
+    """a sentence of several hundred or more than a thousand tokens, child lists stored out of order"""
+    from impl import mk_leaf, mk_node
+    n = rng.choice([499, 500, 520, 1006])
+    kids, i = [], 1
+    while i <= n:
+        k = min(rng.randint(1, 9), n - i + 1)
+        kids.append(mk_node(rng.choice(["NP", "PP"]), [mk_leaf(i + j, "NN", "w", "--", "--", "--") for j in range(k)], edge="--", lemma="--", morph="--"))
+        i += k
+    # a discontinuous constituent at the very end and loose tokens in its gap, stored in reverse
+    tail = kids[-3:]
+    rng.shuffle(kids)
+    t = mk_node("VROOT", [mk_node("S", kids[:len(kids) // 2], edge="--", lemma="--", morph="--")] + list(reversed(kids[len(kids) // 2:])),
+                edge="--", lemma="--", morph="--")
+    return t, n
+
+
 def gen(seed, tier, scale):
+    for i in range((2 if tier == "quick" else 12) * scale):
+        rng = case_rng(seed, ID, 600000 + i)
+        t, n = huge_tree(rng)
+        yield 600000 + i, nav_case(t, "huge", {"tokens": n}, light=True)
     idx = 0
     nmax = 4 if tier == "quick" else 5
     for n in range(1, nmax + 1):
